@@ -15,7 +15,7 @@ RULE = ("generators W and W-chains (gen/wsgen.py) incl. fixtures named test_*; f
         "under D's name (every (D,U) pair), plus a dump of both usage indexes; non-trivial = some conftest/link provides "
         "a name; distinct = distinct tag multiset")
 ASSUMPTIONS = ["virtual workspaces only", "ASCII identifiers and lines",
-               "code-lens / call-hierarchy / CLI counts are checked at handler level by C05/C20 (H2/H3), here the library functions they call"]
+               "code-lens and incoming-call counts are compared with the reference lists of the real server by the handler part of C05, CLI counts by C20; here the library functions they call"]
 
 
 def add_queries(ws, steps, stdlib):
@@ -62,4 +62,19 @@ nontrivial = ws_prop.nontrivial_default
 
 
 def run(r):
+    # handler part: the code-lens counts and the incoming calls of the real server against its own reference lists
+    # (the exploration is shared with C05, which judges the other handlers)
+    import json, os, random
+    import core, C05
+    quick = r.tier == "quick"
+    stdlib = set(core.tables()["stdlib_modules"])
+    bad, stats, tags = C05.explore_handlers(r, random.Random(r.seed * 11 + 4), int(os.environ.get("VERIF_H2_WORKSPACES", 8 if quick else 100)), stdlib)
+    seen = set()
+    for b in bad:
+        if not (b["why"].startswith("a code lens count") or b["why"].startswith("the incoming calls")) or b["why"] in seen:
+            continue
+        seen.add(b["why"])
+        r.violation(dict({"property": PID, "part": "handlers"}, **b), "h2_%d" % len(seen))
+    r.notes.append("handler part: %s" % json.dumps({k: v for k, v in stats.items() if k in ("workspaces", "code_lens", "incoming")}))
+    r.extra_coverage = {"handler_part": {k: v for k, v in stats.items() if k in ("workspaces", "code_lens", "incoming")}}
     return runner.drive_ws(r, sys.modules[__name__])
